@@ -1,2 +1,3 @@
 import XV.Props.C10
 import XV.Props.C17
+import XV.Props.C19
